@@ -89,6 +89,8 @@ def _mk_kv(allow):
     st.log = logging.getLogger("x")
     st.authenticator = _Authn(allow)
     st.writer_queue = _Q()
+    from envmodel import kvworld
+    st.db = kvworld.new_env()   # add_event looks the id up before queueing (duplicate check)
     st.effects = []
 
     async def validate(event, config):
